@@ -21,6 +21,7 @@ if HERE not in sys.path:
 
 from sa.loader import Repo, AnalysisError  # noqa: E402
 from sa.report import Run  # noqa: E402
+from sa import general  # noqa: E402
 
 
 def _violations(prop, repo_root, overlay):
@@ -28,6 +29,7 @@ def _violations(prop, repo_root, overlay):
     repo = Repo(repo_root, overlay)
     run = Run(prop, "quick", write=False, known={"findings": [], "fixed": []})
     mod.run(repo, run, "quick")
+    general.attach(repo, run, prop)
     if run.deferred_errors and not run.violations:
         raise AnalysisError("; ".join(run.deferred_errors))
     return set((v["rule"], v["construct"]) for v in run.violations), run
